@@ -12,6 +12,7 @@
 package main
 
 import (
+	"bytes"
 	"context"
 	"crypto"
 	"crypto/rand"
@@ -36,6 +37,7 @@ import (
 
 	corecrl "github.com/notaryproject/notation-core-go/revocation/crl"
 	"github.com/notaryproject/notation-go/verifier/crl"
+	"github.com/notaryproject/notation-go/zzverif/engine/timeshim"
 	"github.com/notaryproject/notation-go/zzverif/lib/hx"
 	"github.com/notaryproject/notation-go/zzverif/lib/pki"
 )
@@ -1148,6 +1150,102 @@ func replay(r *hx.Run, a *alphabet) {
 	}
 }
 
+// ---- clock-advance histories (clock seam) ----
+//
+// verifier/crl is compiled with its "time" import rewritten to engine/timeshim, so the harness decides what
+// time.Now() returns inside FileCache. A stored entry is read before and after the clock passes (or has not
+// yet reached) a next-update instant, on the same cache instance and on a fresh one: the answer must follow
+// the clock of each Get - freshness is never remembered.
+type clockCase struct {
+	Kind   string `json:"kind"`
+	Bundle string `json:"bundle"`
+	URL    string `json:"url"`
+	Years  []int  `json:"clock_years"`
+}
+
+func clockFamily(r *hx.Run, a *alphabet) {
+	timeshim.SetOffset(0)
+	probeRoot := filepath.Join(a.scratch, "clock-probe")
+	pc, err := crl.NewFileCache(probeRoot)
+	if err != nil {
+		r.Infra("clock probe: %v", err)
+		return
+	}
+	before := timeshim.Calls()
+	_ = pc.Set(context.Background(), "http://h/probe", a.bundleByName("base-fresh").B)
+	_, _ = pc.Get(context.Background(), "http://h/probe")
+	_ = os.RemoveAll(probeRoot)
+	if timeshim.Calls() == before {
+		r.Capped("clock seam not active (overlay build failed or verifier/crl no longer reads package time): clock-advance histories not run")
+		return
+	}
+	at := func(year int) { timeshim.SetOffset(time.Until(time.Date(year, 1, 1, 0, 0, 0, 0, time.UTC))) }
+	defer timeshim.SetOffset(0)
+	// the verdict of the reference for a bundle at a clock year: every next-update instant of the alphabet is 2021 or 2045
+	freshAt := func(b *bundleSpec, year int) bool {
+		ok := func(c *x509.RevocationList) bool { return c == nil || c.NextUpdate.Year() > year }
+		return ok(b.B.BaseCRL) && ok(b.B.DeltaCRL)
+	}
+	years := [][]int{{2030, 2046}, {2046, 2030}, {2030, 2046, 2030}, {2020, 2030}, {2030, 2020}, {2020, 2046, 2020}}
+	n := 0
+	for bi := range a.bundles {
+		b := &a.bundles[bi]
+		if b.NoNextUpdate {
+			continue
+		}
+		for ui, u := range a.urls[:2] {
+			for _, ys := range years {
+				for _, sameInstance := range []bool{true, false} {
+					n++
+					root := filepath.Join(a.scratch, "clock", fmt.Sprintf("c%d", n), "cache")
+					c, err := crl.NewFileCache(root)
+					if err != nil {
+						r.Infra("clock family: %v", err)
+						return
+					}
+					at(2030)
+					r.Eval(1)
+					if err := c.Set(context.Background(), u.URL, b.B); err != nil {
+						r.Violation("clock/set-failed", fmt.Sprintf("Set(%s,%s) at clock year 2030: %v", u.Name, b.Name, err), clockCase{"clock", b.Name, u.Name, ys})
+						continue
+					}
+					for step, y := range ys {
+						at(y)
+						g := c
+						if !sameInstance {
+							if g, err = crl.NewFileCache(root); err != nil {
+								r.Infra("clock family: %v", err)
+								return
+							}
+						}
+						r.Eval(1)
+						got, gerr := g.Get(context.Background(), u.URL)
+						want := freshAt(b, y)
+						inst := map[bool]string{true: "same-instance", false: "fresh-instance"}[sameInstance]
+						where := fmt.Sprintf("Get #%d of clock history %v (%s) for bundle %s under URL %s", step+1, ys, inst, b.Name, u.Name)
+						switch {
+						case want && (gerr != nil || got == nil):
+							r.Violation("clock/fresh-entry-not-returned:"+inst, fmt.Sprintf("%s: at clock year %d neither CRL has passed its next-update time, got error %v", where, y, gerr), clockCase{"clock", b.Name, u.Name, ys})
+						case want && (!bytes.Equal(got.BaseCRL.Raw, b.B.BaseCRL.Raw) || (got.DeltaCRL == nil) != (b.B.DeltaCRL == nil) || (got.DeltaCRL != nil && !bytes.Equal(got.DeltaCRL.Raw, b.B.DeltaCRL.Raw))):
+							r.Violation("clock/returned-bundle-differs:"+inst, where, clockCase{"clock", b.Name, u.Name, ys})
+						case !want && gerr == nil:
+							r.Violation("clock/expired-bundle-returned:"+inst, fmt.Sprintf("%s: at clock year %d a CRL of the entry has passed its next-update time, yet the bundle was returned", where, y), clockCase{"clock", b.Name, u.Name, ys})
+						case !want && !errors.Is(gerr, corecrl.ErrCacheMiss):
+							r.Violation("clock/expired-entry-not-a-miss:"+inst, fmt.Sprintf("%s: at clock year %d the result must be a cache miss, got %v", where, y, gerr), clockCase{"clock", b.Name, u.Name, ys})
+						default:
+							r.Outcome(fmt.Sprintf("clock:%s:fresh=%v", inst, want))
+							r.Nontrivial(fmt.Sprintf("clock|%s|%d|%v|%v|%d", b.Name, ui, ys, sameInstance, step))
+						}
+					}
+					at(2030)
+					_ = os.RemoveAll(filepath.Dir(root))
+				}
+			}
+		}
+	}
+	r.Extra["clock_histories"] = n
+}
+
 func main() {
 	r := hx.New("C15")
 	r.Rule = "breadth-first over the reachable directory states of crl.FileCache: every state reached by a history of Set/Get/nil-Set operations shorter than the depth bound is expanded by every operation of the alphabet (fresh cache directory, replay of the shortest history, one more operation, judged against the map model, recursive containment snapshot, probing Get of every URL); then every truncation, every byte x {^1,^0x80} and the structural corruptions of one stored entry. Non-trivial = transitions from a non-empty cache, and corruptions whose file the oracle (or Get) still reads as an entry or that end in a miss"
@@ -1174,6 +1272,7 @@ func main() {
 	}
 	explore(r, a)
 	corrupt(r, a)
+	clockFamily(r, a) // sequential: the displaced clock is process-global
 
 	// non-vacuity: every URL returned every fresh bundle faithfully at least once;
 	// expired entries were seen as misses; the unmodified file was read back
